@@ -892,6 +892,10 @@ func (s *State) nonNil(e *Expr) ISet {
 	switch e.Op {
 	case "nil":
 		return isConst(0)
+	case "ld":
+		if s.an != nil && len(e.Args) == 1 && e.Args[0].Op == "global" && s.an.P.nonNilGlobals()[strings.TrimSuffix(e.Args[0].S, "#")] {
+			return isConst(1)
+		}
 	case "alloc", "makeiface", "fa", "ia", "makeslice", "makechan", "makemap", "closure", "fn", "slice", "append", "append1", "struct":
 		if e.Op == "makeiface" {
 			// an interface holding a typed nil pointer is non-nil as an interface
